@@ -93,6 +93,7 @@ func entryPoints(cfg protocol.Protocol) []entryPoint {
 			return jwsutil.VerifySignature(&k, []byte("0123456789012345678901234567890123456789012345678901234567890123"), []byte("msg"))
 		}},
 		{"canonicalizer.MarshalCanonical", func(in []byte) error { _, e := canonicalizer.MarshalCanonical(in); return e }},
+		{"hashing.CalculateModelMultihash-bytes", func(in []byte) error { _, e := hashing.CalculateModelMultihash(in, 18); return e }},
 		{"hashing.IsValidModelMultihash", func(in []byte) error {
 			return hashing.IsValidModelMultihash(map[string]interface{}{"a": 1}, string(in))
 		}},
@@ -300,6 +301,13 @@ func genC19(seed int64, tier string) []caseOut {
 			in = []byte(strings.Repeat([]string{"[", "{\"a\":", "\"", ":", "did:ion:", "a.", "~1"}[r.Intn(7)], 1+r.Intn(300)))
 		}
 		runAll("bytes", in)
+	}
+	// 1b. nesting far deeper than any limit (no closing brackets, closed, objects, mixed, with white space):
+	// answered with an error at once, not after minutes and not with a dead process
+	for _, deep := range []string{strings.Repeat("[", 200000), strings.Repeat("[", 120000) + "1" + strings.Repeat("]", 120000),
+		strings.Repeat(`{"a":`, 100000), strings.Repeat(`{"a":`, 60000) + "1" + strings.Repeat("}", 60000), strings.Repeat(`[{"a":`, 80000),
+		strings.Repeat("[ ", 150000), `{"type":"create","suffixData":` + strings.Repeat("[", 150000)} {
+		runAll("deep-nesting", []byte(deep))
 	}
 	// 2. structure-aware corruption of valid operations; Parse verdict compared with the model
 	for vi, v := range valids {
